@@ -295,9 +295,48 @@ def g_rect_ring(rng):
     return keep + [keep[0]]
 
 
+def g_origin_spike(rng, rotate=True):
+    """a simple closed ring whose ORIGIN is the tip of a thin spike: nearly collinear with its two neighbours but lying beyond both of them
+    (it projects outside the segment joining them).  Returns (ring, d) with d = distance of the origin from the LINE through its neighbours:
+    at tolerances around d the origin is within tolerance of that line but far from the segment, so it must be kept."""
+    La = rng.randint(8, 40); Lb = rng.randint(3, La - 2)
+    a = rng.randint(-3, 3)
+    b = (a * Lb) // La + rng.choice([1, 1, 1, 2, 3])          # B strictly above the line O-A at x = Lb
+    H = max(a, b) + rng.randint(4, 30)
+    body = [(La, a)]
+    for y in sorted(rng.sample(range(a + 1, H), min(rng.choice([0, 0, 1, 2]), H - a - 1))):
+        body.append((La + rng.choice([0, 0, 1, -1]), y))
+    body.append((La, H))
+    for x in sorted(rng.sample(range(Lb + 1, La), min(rng.choice([0, 0, 1, 3]), La - Lb - 1)), reverse=True):
+        body.append((x, H + rng.choice([0, 0, 2, -2])))
+    body.append((Lb, H))
+    for y in sorted(rng.sample(range(b + 1, H), min(rng.choice([0, 0, 1]), H - b - 1)), reverse=True):
+        body.append((Lb, y))
+    body.append((Lb, b))
+    ring = [(0, 0)] + body
+    cross = La * b - Lb * a
+    d = cross / math.hypot(La - Lb, a - b)
+    z = rng.choice([(1, 0), (0, 1), (-1, 0), (0, -1), (1, 1), (2, 1), (3, 4), (1, -2), (1, 0)])
+    ox, oy = rng.randint(-50, 50), rng.randint(-50, 50)
+    ring = [(z[0] * x - z[1] * y + ox, z[1] * x + z[0] * y + oy) for x, y in ring]
+    d *= math.hypot(*z)
+    if rng.random() < 0.5:
+        ring = [ring[0]] + ring[:0:-1]                         # other orientation, same origin
+    if rotate and rng.random() < 0.3:
+        k = rng.randrange(len(ring)); ring = ring[k:] + ring[:k]   # the spike at another ring position
+    return ring + [ring[0]], d
+
+
+def ospike_tol(rng, d):
+    return d * rng.choice([0.5, 0.9, 1.0001, 1.1, 1.5, 2, 3]) if rng.random() < 0.85 else rng.choice([1, 2, 0.5])
+
+
 def gen_line(rng, quick):
     r = rng.random()
     n = rng.choice([2, 3, 3, 4, 5, 6, 8, 12, 20, 35]) if quick else rng.choice([2, 3, 4, 5, 8, 12, 20, 35, 60, 120])
+    if r < 0.07:
+        ring, d = g_origin_spike(rng)
+        return 'ospike@%r' % ospike_tol(rng, d), ring
     if r < 0.22:
         return 'walk', g_walk(rng, n, rng.choice([1, 2, 5, 20]), rng.choice([5, 30, 1000]))
     if r < 0.42:
@@ -538,6 +577,22 @@ def gen_geometry(rng, quick):
     if r < 0.04:
         rings, hint = g_bump_spike(rng)
         return 'polygon:bumpspike', ('Polygon', rings), hint
+    if r < 0.12:
+        # rings whose origin is a spike tip beyond both neighbours: as shell, as hole, as LINEARRING / closed line, in a multipolygon
+        ring, d = g_origin_spike(rng)
+        hint = ospike_tol(rng, d)
+        c = rng.random()
+        if c < 0.35:
+            return 'polygon:ospike-shell', ('Polygon', [ring]), hint
+        xs = [p[0] for p in ring]; ys = [p[1] for p in ring]
+        m = rng.randint(3, 20)
+        box = [(min(xs) - m, min(ys) - m), (max(xs) + m, min(ys) - m), (max(xs) + m, max(ys) + m), (min(xs) - m, max(ys) + m), (min(xs) - m, min(ys) - m)]
+        if c < 0.6:
+            return 'polygon:ospike-hole', ('Polygon', [box, ring]), hint
+        if c < 0.85:
+            return 'line:ospike-ring', ('LineString', ring), hint
+        ring2, _ = g_origin_spike(rng)
+        return 'multipolygon:ospike', ('MultiPolygon', [('Polygon', [ring]), ('Polygon', [[(x + 2000, y) for x, y in ring2]])]), hint
     g = gen_geometry0(rng, quick, r)
     return g[0], g[1], None
 
@@ -545,7 +600,7 @@ def gen_geometry(rng, quick):
 def gen_geometry0(rng, quick, r):
     if r < 0.25:
         k, pts = gen_line(rng, quick)
-        return 'line:' + k, ('LineString', pts)
+        return 'line:' + k.split('@')[0], ('LineString', pts)
     if r < 0.55:
         k, rings = gen_polygon(rng, quick)
         return 'polygon:' + k, ('Polygon', rings)
@@ -775,7 +830,10 @@ def stream_dpl(ctx, rr, n):
         hint = None
         if kind.startswith('zigzag'):
             hint = int(kind[6:]); kind = 'zigzag'
-        tol = gen_tol(rng, pts, hint)
+        if '@' in kind:
+            kind, t = kind.split('@'); tol = float(t) if rng.random() < 0.8 else gen_tol(rng, pts)
+        else:
+            tol = gen_tol(rng, pts, hint)
         closed = len(pts) >= 4 and pts[0] == pts[-1]
         cases.append(dict(kind=kind, pts=pts, tol=tol, preserve=rng.choice([0, 0, 1]) if closed else rng.choice([0, 1])))
     # corpus of hand-made boundary cases (DESIGN C18 witnesses)
@@ -1021,7 +1079,7 @@ def stream_simpl(ctx, rr, n, name, ops, doubles=False):
         comps = flatten(g)
         tol = gen_tol(rng, all_pts(comps)) if hint is None or rng.random() < 0.3 else hint
         op = rng.choice(ops)
-        if g[0] == 'LineString' and len(g[1]) >= 4 and g[1][0] == g[1][-1] and rng.random() < 0.5:
+        if g[0] == 'LineString' and len(g[1]) >= 4 and g[1][0] == g[1][-1] and (rng.random() < 0.5 or label.endswith('ospike-ring')):
             op = op + 'R'
         if doubles:
             g, s = to_double_grid(rng, g)
@@ -1351,7 +1409,7 @@ def stream_derived(ctx, rr, n):
 # ------------------------------------------------------------------------------------------------ entry point
 def run(ctx):
     ctx.cov['rule'] = ('inputs: open / closed lines (random walks, zigzags at the tolerance, collinear runs and repeated points, exactly tied '
-                       'distances, vertices projecting beyond the chord, stars, thin triangles, rectilinear rings), polygons with holes (lattice '
+                       'distances, vertices projecting beyond the chord, stars, thin triangles, rectilinear rings, rings whose origin is a spike beyond both neighbours), polygons with holes (lattice '
                        'regions with shared wiggly edges, stars, bump-and-spike), multi-geometries, collections, edge-matched tilings with 3- and '
                        '4-way nodes, holes, islands and gaps; integer coordinates and the same mapped to full-precision binary64; tolerances 0 .. '
                        '> extent; hull parameters 0..1, both modes and sides; boundary preservation on / off. non-trivial = the call removed at '
